@@ -63,9 +63,9 @@ Proof.
                             | Eq : reg _ = _ |- _ => rewrite Eq in *
                             | Eq : clr _ = _ |- _ => simpl in Eq; rewrite Eq in * end; simpl in *.
   all: try lia.
-  exfalso. unfold ST_EXIT, ST_WAKE in *.
-  match goal with Hb : (_ =? 1) = false |- _ =>
-    destruct (Nat.eqb_spec (to_exit s) 2); [discriminate Hb|apply Nat.eqb_neq in Hb; lia] end.
+  all: exfalso; unfold ST_EXIT, ST_WAKE in *;
+    match goal with Hb : (_ =? 1) = false |- _ =>
+      destruct (Nat.eqb_spec (to_exit s) 2); [discriminate Hb|apply Nat.eqb_neq in Hb; lia] end.
 Qed.
 
 (* steps of the other threads: only an enqueue changes the rank, by 2 *)
